@@ -6,9 +6,9 @@ import json, os, re, subprocess, sys
 V = os.path.dirname(os.path.dirname(os.path.abspath(__file__)))
 M = os.environ.get("MUT", "/var/tmp/mut")
 EXTRA = {"C09": ["C09", "C15"], "C15": ["C15", "C09", "C13"], "C14": ["C14", "C09"], "C02": ["C02", "C06"], "C06": ["C06", "C02"],
-         "C10": ["C10", "C11"], "C11": ["C11", "C10"],
+         "C10": ["C10", "C11"], "C11": ["C11", "C10", "C18"],
          "C05": ["C05", "C01", "C03", "C04", "C20"], "C01": ["C01", "C05", "C16", "C19"], "C03": ["C03", "C04", "C20"], "C04": ["C04", "C03"],
-         "C07": ["C07", "C18"], "C18": ["C18", "C07"], "C08": ["C08"], "C13": ["C13"], "C16": ["C16", "C08"]}
+         "C07": ["C07", "C18", "C17"], "C18": ["C18", "C07"], "C08": ["C08", "C10"], "C13": ["C13"], "C16": ["C16", "C08"]}
 
 def sh(cmd, cwd=None):
     return subprocess.run(cmd, shell=True, cwd=cwd, stdout=subprocess.PIPE, stderr=subprocess.STDOUT, text=True)
